@@ -99,6 +99,22 @@ CHECKS = {
                      "kept/removed pattern, exact zeros, nesting in the tolerance and the s-type bound are checked "
                      "against a 34-digit cutoff model.",
                 technique="exhaustive enumeration of configurations and critical distances against a reference model"),
+    "C16": dict(engine=E1, ref="5/C16",
+                text="Every 1- and 2-shell basis over l 0..4 x type x segment patterns and 3-shell ladder bases x all 8 "
+                     "type patterns: the library's pointwise evaluations (values, gradients, density, positive-definite "
+                     "kinetic density) are integrated on a 91^3 uniform grid and compared with its own analytic overlap, "
+                     "moment, kinetic matrices and traces - a differential oracle between the two halves of the library "
+                     "with no hand-written expected values.",
+                note="trusted base: geometric convergence of the trapezoid rule for exponents 0.3..3 inside [-9,9]^3 "
+                     "(one configuration is run at two spacings and the error ordering asserted); numpy",
+                technique="exhaustive enumeration of small bases with a differential (integrate-the-evaluation) oracle"),
+    "C17": dict(engine=E1, ref="5/C17",
+                text="Invariants (S symmetric PSD and bounded by 1, T PSD, V of positive charges NSD, ERI pair matrix "
+                     "PSD, (ab|ab)>=0, Schwarz inequality) are evaluated on every state of the product bases (1-5 "
+                     "shells, type patterns) x centre patterns (coincident ... 6 bohr, incl. nearly linearly dependent) x "
+                     "exponent patterns; reference-free, the oracle is the inequality itself.",
+                note="trusted base: LAPACK eigvalsh; alphabets of DESIGN.md section 4",
+                technique="exhaustive enumeration of configurations with invariants checked on every state"),
 }
 
 NOT_YET = {}
